@@ -579,7 +579,7 @@ def _opts_key(cfg, names):
 
 def toggle_configs(thorough):
     out = []
-    pmax = 6 if thorough else 4
+    pmax = 6
 
     def add(first, second, ds, fs, re, style, clk=None, **kw):
         cfg = {"family": "toggle", "first": first, "second": second, "default_state": ds, "first_state": fs,
@@ -592,39 +592,58 @@ def toggle_configs(thorough):
             (f"/clk={clk}" if clk else "") + (f"/bits={kw['bits']}" if "bits" in kw else "") + _ctx_key(kw.get("ctx"))
         out.append(cfg)
 
-    opts = [(ds, fs, re) for ds in (0, 1) for fs in (0, 1) for re in (0, 1)]
-    # contexts with a reset (every flavour): the toggle lives in ctx.or_reset(...)
+    dsfs = [(ds, fs) for ds in (0, 1) for fs in (0, 1)]
+    # control flavours (style, require_enable).  With style "sig" the reset signal is driven from an input, which
+    # overrides require_enable's initial value; with style "none" and require_enable the toggle never starts.  The
+    # quick tier keeps one representative of those redundant/constant combinations, the thorough tier all of them.
+    if thorough:
+        controls = [(st, re) for st in ("none", "sig", "call") for re in (0, 1)]
+    else:
+        controls = [("none", 0), ("sig", 0), ("call", 0), ("call", 1)]
+    never = [("none", 1)]
+
+    # contexts with a reset (every flavour): the toggle lives in ctx.or_reset(reset_signal)
     for ctx in CTX_FLAVOURS:
-        for ds, fs, re in opts:
-            for style in ("none", "sig", "call"):
-                for first, second in (((2, 1), ("rt", 2), (1, None), (3, 2), ("rt", "rt")) if thorough else ((2, 1), ("rt", 2))):
-                    add(first, second, ds, fs, re, style, ctx=ctx)
+        for st, re in controls + ([] if thorough else never):
+            for ds, fs in dsfs:
+                for first, second in (((2, 1), (1, None), (3, 2)) if thorough else ((2, 1),)):
+                    add(first, second, ds, fs, re, st, ctx=ctx)
+                if thorough or (ds, fs) == (0, 0):
+                    add("rt", 2, ds, fs, re, st, ctx=ctx)
+                if thorough:
+                    add("rt", "rt", ds, fs, re, st, ctx=ctx)
     # constant durations: 50% duty (second omitted) and explicit pairs, incl. the documented 1/0 and 0/1 corners
-    pairs = [(a, None) for a in range(1, pmax + 1)] + \
-            [(a, b) for a in range(0, pmax) for b in range(0, pmax) if (a, b) != (0, 0) and a + b <= pmax + 1] + [(0, 0)]
+    if thorough:
+        pairs = [(a, None) for a in range(1, pmax + 1)] + \
+                [(a, b) for a in range(0, pmax) for b in range(0, pmax) if (a, b) != (0, 0) and a + b <= pmax + 1]
+    else:
+        pairs = [(a, None) for a in (1, 2, 3)] + [(a, b) for a in range(0, 3) for b in range(0, 3) if 1 <= a + b <= 3]
+    pairs.append((0, 0))
     for first, second in pairs:
-        for ds, fs, re in opts:
-            for style in ("none", "sig", "call"):
-                if style == "none" and re and (first, second) not in ((1, None), (2, 1)):
-                    continue  # never enabled: constant default output; two instances are enough
-                add(first, second, ds, fs, re, style)
+        for ds, fs in dsfs:
+            for st, re in controls:
+                if (st, re) == ("none", 1):
+                    continue
+                add(first, second, ds, fs, re, st)
+            if (first, second) in ((1, None), (2, 1)):
+                add(first, second, ds, fs, 1, "none")  # never enabled: constant default output
     # run-time durations (2-bit inputs; 3-bit in the thorough tier)
-    for ds, fs, re in opts:
-        for style in ("none", "sig", "call"):
-            if style == "none" and re:
+    for ds, fs in dsfs:
+        for st, re in controls:
+            if (st, re) == ("none", 1):
                 continue
-            add("rt", "rt", ds, fs, re, style)
-            add("rt", None, ds, fs, re, style)
-            add("rt", 2, ds, fs, re, style)
-            add(1, "rt", ds, fs, re, style)
+            add("rt", "rt", ds, fs, re, st)
+            add("rt", None, ds, fs, re, st)
+            add("rt", 2, ds, fs, re, st)
+            add(1, "rt", ds, fs, re, st)
             if thorough:
-                add("rt", "rt", ds, fs, re, style, bits=3)
-                add(3, "rt", ds, fs, re, style)
-                add("rt", 0, ds, fs, re, style)
+                add("rt", "rt", ds, fs, re, st, bits=3)
+                add(3, "rt", ds, fs, re, st)
+                add("rt", 0, ds, fs, re, st)
     # Duration arguments
     for clk, durs in DURATIONS.items():
         for d in durs:
-            for fs in (0, 1):
+            for fs in ((0, 1) if thorough else (0,)):
                 add(["dur", d[0], d[1]], None, 0, fs, 0, "sig", clk=clk)
         add(["dur", durs[1][0], durs[1][1]], ["dur", durs[0][0], durs[0][1]], 0, 0, 0, "sig", clk=clk)
         add(["dur", durs[0][0], durs[0][1]], 2, 0, 0, 0, "sig", clk=clk)
@@ -653,20 +672,24 @@ def divider_configs(thorough):
             (f"/clk={clk}" if clk else "") + (f"/bits={kw['bits']}" if "bits" in kw else "") + _ctx_key(kw.get("ctx"))
         out.append(cfg)
 
-    opts = [(ds, tas, re) for ds in (0, 1) for tas in (0, 1) for re in (0, 1)]
+    dstas = [(ds, tas) for ds in (0, 1) for tas in (0, 1)]
+    if thorough:
+        controls = [(st, re) for st in ("none", "sig", "call") for re in (0, 1)]
+    else:
+        controls = [("none", 0), ("none", 1), ("sig", 0), ("call", 0), ("call", 1)]  # see toggle_configs
     for ctx in CTX_FLAVOURS:
-        for ds, tas, re in opts:
-            for style in ("none", "sig", "call"):
+        for st, re in controls:
+            for ds, tas in dstas:
                 for d in ((2, 3, 5, "rt") if thorough else (3, "rt")):
-                    add(d, ds, tas, re, style, ctx=ctx)
+                    add(d, ds, tas, re, st, ctx=ctx)
     for d in list(range(1, pmax + 1)) + ["rt"]:
-        for ds, tas, re in opts:
-            for style in ("none", "sig", "call"):
-                if style == "none" and re and d not in (2, 3):
+        for ds, tas in dstas:
+            for st, re in controls:
+                if (st, re) == ("none", 1) and d not in (2, 3):
                     continue
-                add(d, ds, tas, re, style)
+                add(d, ds, tas, re, st)
                 if thorough and d == "rt":
-                    add(d, ds, tas, re, style, bits=3)
+                    add(d, ds, tas, re, st, bits=3)
     for clk, durs in DURATIONS.items():
         for d in durs:
             for tas in (0, 1):
